@@ -76,3 +76,18 @@ package converters
 //@   loop 1 invariant records_sane: forall(uint64, k, 0, inf, implies(haskey(cachefile.streamInfos, k), cachefile.streamInfos[k].offset >= 8 && cachefile.streamInfos[k].offset < 4611686018427387904 && int(cachefile.streamInfos[k].size) < 1099511627776))
 //@   loop 1 assume cachefile.freeSize >= 0 && cachefile.freeSize < 2305843009213693952
 //@   assert before call delete#1: free_start: cachefile.freeStart <= info.offset - 8
+
+// Reset leaves an empty cache: no records, nothing free, the free area and the file both end right
+// after the file header (a stale free-area start would point compaction into records written later).
+// Assumed: file operations and binary.Write do not touch the bookkeeping fields.
+//@ extern (*os.File).Seek(f, off, whence) pos err
+//@ extern (*os.File).Truncate(f, size) err
+//@ extern encoding/binary.Write(w, order, data) err
+//@ extern fmt.Errorf(format, args) err
+//@   ensures !isnil(err)
+//@ func (*cacheFile).Reset
+//@   prop C15
+//@   nosafety
+//@   noframe
+//@   requires cachefile != nil
+//@   ensures reset_empty: implies(isnil(result), len(cachefile.streamInfos) == 0 && cachefile.freeSize == 0 && cachefile.freeStart == cachefile.fileSize && cachefile.fileSize == 8)
